@@ -64,6 +64,14 @@ def wide_nonascii_alpha(mod, t, v, depth=0):
     return False
 
 
+def except_only(specs, v, base):
+    """the value is excluded by an EXCEPT clause only: with every EXCEPT dropped the constraint admits it"""
+    cur = base if base is not None else C.IntSet.all()
+    for tree, e, add in specs:
+        cur = cur.inter(C.eval_tree(tree, cur, drop_except=True))
+    return cur.contains(v)
+
+
 def violations(mod, t, v, path="", out=None, depth=0):
     """X.680 semantics: list of (path, what, class) for every violated constraint in v"""
     out = [] if out is None else out
@@ -76,15 +84,23 @@ def violations(mod, t, v, path="", out=None, depth=0):
         if specs:
             root, ext = C.general_set(specs)
             if not ext and not root.contains(v):
-                out.append((path, "value", "value:%s:%s%s" % (k, origin(mod, t, "value_c"),
-                                                                ":negative-into-unsigned" if v < 0 and root.lb() is not None and root.lb() >= 0 and root.ub() is None else "")))
+                sub = ""
+                if v < 0 and root.lb() is not None and root.lb() >= 0 and (root.ub() is None or root.ub() > 2147483647):
+                    sub = ":negative-into-unsigned"     # the type is kept in an unsigned long
+                elif root.iv == [(0, 4294967295)] and v > 4294967295:
+                    sub = ":above-uint32"
+                elif except_only(specs, v, None):
+                    sub = ":except-only"
+                elif root.lb() is None and root.ub() is None:
+                    sub = ":hull-unbounded"     # a hole inside (MIN..a | b..MAX)
+                out.append((path, "value", "value:%s:%s%s" % (k, origin(mod, t, "value_c"), sub)))
     elif k in ("BIT STRING", "OCTET STRING") or k in CHAR_KINDS:
         n = v[1] if k == "BIT STRING" else len(v)
         specs = C.chain(mod, t, "size_c")
         if specs:
             root, ext = C.general_set(specs, C.IntSet([(0, None)]))
             if not ext and not root.contains(n):
-                out.append((path, "size", "size:%s:%s" % (k, origin(mod, t, "size_c"))))
+                out.append((path, "size", "size:%s:%s%s" % (k, origin(mod, t, "size_c"), ":except-only" if except_only(specs, n, C.IntSet([(0, None)])) else (":hull-unbounded" if root.lb() == 0 and root.ub() is None else ""))))
         if k in CHAR_KINDS:
             alpha, aext = C.alphabet(mod, t, k)
             if alpha is None and k in ALPHABET:
@@ -104,7 +120,7 @@ def violations(mod, t, v, path="", out=None, depth=0):
         if specs:
             root, ext = C.general_set(specs, C.IntSet([(0, None)]))
             if not ext and not root.contains(len(v)):
-                out.append((path, "size", "size:%s:%s" % (k, origin(mod, t, "size_c"))))
+                out.append((path, "size", "size:%s:%s%s" % (k, origin(mod, t, "size_c"), ":except-only" if except_only(specs, len(v), C.IntSet([(0, None)])) else (":hull-unbounded" if root.lb() == 0 and root.ub() is None else ""))))
         for i, e in enumerate(v):
             violations(mod, rt.elem, e, path + "[%d]" % i, out, depth + 1)
     return out
@@ -213,6 +229,58 @@ def single_faults(mod, t, v, rng, limit):
     return res[:limit]
 
 
+def constraint_shapes(seed, quick):
+    """a module of constraint shapes that random generation meets too rarely: unions / intersections / EXCEPT at the
+    widths where the native representation changes, SIZE sets with holes, constrained collections (inline, by
+    reference, by constrained reference) of constrained elements"""
+    from ..asn.model import Module, Type, Comp, Constraint, MIN, MAX
+    from . import c09
+    m = Module("CS", "AUTOMATIC")
+    R = lambda a, b: ("range", a, b)
+    U = lambda a, b: ("union", a, b)
+    ints = [U(R(0, 5), R(10, 4294967295)), U(R(-2147483648, -5), R(7, 2147483647)), U(R(0, 5), R(10, 255)), U(R(MIN, -1), R(1, MAX)),
+            R(0, 4294967295), R(1, 4294967295), ("except", R(0, 100), ("val", 50)), ("inter", U(R(0, 10), R(20, 30)), R(5, 25)),
+            U(("val", -1), R(3, 4)), U(R(0, 2147483647), R(2147483649, 4294967295)), R(-128, 127), U(R(-32768, -2), R(2, 32767)),
+            U(U(("val", 1), ("val", 3)), ("val", 5)), ("allexcept", R(3, 7))]
+    trees = [t for t in c09.small_trees(c09.U_INT) if c09.legal(t, C.IntSet.all())]
+    step = 97 if quick else 11
+    ints += [t for i, t in enumerate(trees) if (i + seed) % step == 0]
+    wcomps = []
+    for i, tr in enumerate(ints):
+        m.add("I%d" % i, Type("INTEGER", value_c=Constraint([(tr, False, None)])))
+        if i < 14:
+            wcomps.append(Comp("i%d" % i, Type("REF", ref="I%d" % i), optional=(i % 3 == 0)))
+    sizes = [U(R(1, 3), R(7, 9)), U(("val", 0), ("val", 4)), ("val", 2), R(2, MAX), ("except", R(0, 6), R(2, 3)), ("inter", R(0, 5), R(3, 9))]
+    strees = [t for t in c09.small_trees(c09.U_SIZE) if c09.legal(t, C.IntSet([(0, None)]))]
+    sizes += [t for i, t in enumerate(strees) if (i + seed) % (step * 2) == 0]
+    kinds = ["IA5String", "OCTET STRING", "BIT STRING", "PrintableString", "BMPString", "UTF8String"]
+    for i, tr in enumerate(sizes):
+        k = kinds[i % len(kinds)]
+        m.add("S%d" % i, Type(k, size_c=Constraint([(tr, False, None)])))
+    m.add("Small", Type("INTEGER", value_c=Constraint.simple(0, 5)))
+    m.add("Word", Type("IA5String", size_c=Constraint.simple(1, 3), alpha_c=Constraint([(("range", "a", "f"), False, None)])))
+    m.add("Bag", Type("SET OF", elem=Type("REF", ref="Small")))
+    m.add("List", Type("SEQUENCE OF", elem=Type("REF", ref="Small")))
+    m.add("Words", Type("SEQUENCE OF", elem=Type("REF", ref="Word")))
+    m.add("ShortBag", Type("REF", ref="Bag", size_c=Constraint.simple(1, 3)))
+    m.add("ShortList", Type("REF", ref="List", size_c=Constraint.simple(1, 3)))
+    m.add("Holder", Type("SEQUENCE", comps=[
+        Comp("bag", Type("SET OF", elem=Type("REF", ref="Small"), size_c=Constraint.simple(1, 3))),
+        Comp("list", Type("SEQUENCE OF", elem=Type("REF", ref="Small"), size_c=Constraint.simple(1, 3))),
+        Comp("rbag", Type("REF", ref="Bag", size_c=Constraint.simple(1, 3))),
+        Comp("rlist", Type("REF", ref="List", size_c=Constraint.simple(1, 3))),
+        Comp("words", Type("REF", ref="Words", size_c=Constraint([(("union", ("val", 1), ("range", 3, 4)), False, None)])), optional=True),
+        Comp("sb", Type("REF", ref="ShortBag"), optional=True),
+        Comp("inl", Type("SET OF", elem=Type("IA5String", size_c=Constraint.simple(2, 2)), size_c=Constraint.simple(0, 2)), optional=True)]))
+    m.add("W", Type("SEQUENCE", comps=wcomps))
+    m.add("Pick", Type("CHOICE", comps=[Comp("pa", Type("REF", ref="I0")), Comp("pb", Type("REF", ref="S0")), Comp("pc", Type("REF", ref="Holder")),
+                                        Comp("pd", Type("INTEGER", value_c=Constraint([(U(R(0, 5), R(10, 4294967295)), False, None)])))]))
+    for t in m.types.values():
+        gen._set_module(t, m)
+    m.finalize()
+    return m
+
+
 def run(tier, seed):
     chk = core.Check("C08", tier, seed)
     quick = tier == "quick"
@@ -229,6 +297,7 @@ def run(tier, seed):
     prof = gen.profile(max_len=12, extensible=False, ext_additions=False, set_type=True)
     # extension markers on constructed types are fine (only constraints must be non-extensible)
     builds = harness.make_many(tc, [seed * 1000 + 800 + i for i in range(nmod)], prof, atoms=12, composites=10)
+    builds.append(harness.make(tc, seed * 1000 + 899, prof, module_fn=lambda g: constraint_shapes(seed, quick)))
     for b in builds:
         if b.exe is None:
             chk.inconcl("module not built (%s)" % b.error[0])
@@ -238,6 +307,7 @@ def run(tier, seed):
         cases, meta = [], {}
         cid = 0
         for tname, t in b.mod.types.items():
+            b.gen.mod = b.mod
             vals = b.gen.values(t, 3 if quick else 8)
             items = []
             for v in vals:
@@ -263,7 +333,8 @@ def run(tier, seed):
                     continue    # generator produced something invalid (e.g. out-of-root on an extensible leftover)
                 eb = rng.choice([0, 1, 2, 16, 128])
                 cid += 1
-                cases.append(drv.Case(cid, ["dec s=0 t=%s syn=BER in=%s" % (tname, drv.hx(ref)), "chk s=0 eb=128", "chk s=0 eb=%d" % eb, "chk s=0 eb=-1"]))
+                cases.append(drv.Case(cid, ["dec s=0 t=%s syn=BER in=%s" % (tname, drv.hx(ref)), "chk s=0 eb=128", "chk s=0 eb=%d" % eb, "chk s=0 eb=-1",
+                                            "chk s=0 exact=1"]))
                 meta[cid] = (tname, t, v, kind, viol, ref, eb)
         res = drv.run_parallel(b.exe, cases)
         for cid, (tname, t, v, kind, viol, ref, eb) in meta.items():
@@ -307,6 +378,16 @@ def run(tier, seed):
             if {cx.get("rc"), cnull.get("rc")} != {rc}:
                 chk.violation(dict(key, symptom="verdict-depends-on-errbuf"),
                               "asn_check_constraints(%s) verdict changes with the error buffer: 128->%s, %d->%s, NULL->%s" % (tname, rc, eb, cx.get("rc"), cnull.get("rc")), replay)
+            if len(ev) > 4 and ev[4].get("op") == "chkx":
+                x = ev[4]
+                for kx, vx in x.items():
+                    if not kx.startswith("sz"):
+                        continue
+                    sz, rr, el, tt = [int(q) for q in vx.split(":")]
+                    if (rr == 0) != (rc == "0") or (rr != 0 and (el >= sz or not tt)):
+                        chk.violation(dict(key, symptom="errbuf-edge", edge=kx),
+                                      "asn_check_constraints(%s) with a buffer of %d bytes for a %s-byte message: rc=%d errlen=%d terminated=%d" % (
+                                          tname, sz, x.get("len"), rr, el, tt), replay)
             if rc != "0":
                 for e, sz in ((c128, 128), (cx, eb)):
                     if sz > 0:
